@@ -185,6 +185,8 @@ fn main() {
     sweep::<i64>(&run, "i64", &z4, &[(2, 3), (3, 2)], &flags);
     sweep::<i64>(&run, "i64", &z3, &[(3, 3)], &flags);
     sweep::<i64>(&run, "i64", &z4, &[(3, 3)], &two_flags);
+    sweep::<i64>(&run, "i64", &z3[..2], &[(4, 4)], &two_flags);
+    sweep::<i64>(&run, "i64", &z3, &[(2, 4), (4, 2)], &two_flags);
     let zwide: Vec<Z> = [0, 1, 2, 3, 4, 6, -2, -6, 12].map(z).to_vec();
     sweep::<i64>(&run, "i64", &zwide, &[(2, 2)], &flags);
     // ---- diagonal inputs: the divisibility-chain normalisation on its own ------------------------------------
